@@ -512,9 +512,25 @@ def al2(ctx, pid):
         ctx.ok(c, f.loc(), "no reference-count increment on the outer trie after the commit")
 
 
-def _arg_sharing(ctx, f, arg):
+def _arg_sharing(ctx, f, arg, depth=0):
     if isinstance(arg, ast.Constant):
         return "const", "a constant"
+    if isinstance(arg, ast.Name) and arg.id not in f.all_params() and depth < 4:
+        bs = [b for b in ctx.E.bindings(f).get(arg.id, []) if isinstance(b, ast.AST)]
+        if len(bs) > 1 and len(bs) == len(ctx.E.bindings(f).get(arg.id, [])):
+            res = [_arg_sharing(ctx, f, b, depth + 1) for b in bs]
+            for want in ("shared", "unknown"):
+                for k, why in res:
+                    if k == want:
+                        return k, "one of its bindings (`%s`) is %s" % ("; ".join(ast.unparse(b) for b in bs), why)
+            return "fresh", "fresh or constant on every binding"
+    if isinstance(arg, ast.IfExp):
+        res = [_arg_sharing(ctx, f, b, depth + 1) for b in (arg.body, arg.orelse)]
+        for want in ("shared", "unknown"):
+            for k, why in res:
+                if k == want:
+                    return k, why
+        return "fresh", "fresh or constant on both arms"
     t = ctx.R.type_of(arg, f)
     if t and t[0] == "c" and t[1] in ("bytes", "int", "bool", "str", "none", "tuple"):
         return "immutable", "immutable (%s)" % t[1]
